@@ -25,7 +25,7 @@
   follower that meets a leader whose input has already moved on gets CLEAR and deletes
   (`clear_deletes_any`).
 
-  Undischarged hypothesis of the session theorems: `hq : (V 0).l2.cur ≠ "?"` — the leader's
+  Undischarged hypothesis of the session theorems: `hq : (V 0).l2b.cur ≠ "?"` — the leader's
   channel run id is never the literal "?" (listed in the check's assumptions).
   "Is offered leadership": follower side `ahead_gets_handover`, leader side
   `handover_leader_steps_down` (Sync stops the syncer); what runCluster does afterwards is
@@ -48,7 +48,7 @@ open GunYu GunYu.Replica
     move from one id to another — and the store stays well formed. -/
 theorem follower_prefix_of_leader {β : Type} (h : Hist β) (bk : Backend) (V : Nat → View β)
     (F : Store β) (ch : List Nat) (cut lost fuel : Nat)
-    (hL : ∀ n, (V n).l4.Faithful h) (hq : (V 0).l2.cur ≠ "?") (hwf : WF bk F) (id : Id)
+    (hL : ∀ n, (V n).l4.Faithful h) (hq : (V 0).l2b.cur ≠ "?") (hwf : WF bk F) (id : Id)
     (hF : FaithfulAt h F.dirs id) :
     FaithfulAt h (sessionV bk V F ch cut lost fuel).store.dirs id ∧
       WF bk (sessionV bk V F ch cut lost fuel).store :=
@@ -80,7 +80,7 @@ def step {β : Type} (bk : Backend) (F : Store β) : Step β → Store β
 /-- the step keeps faithfulness: sessions against faithful leaders; what the follower's own
     input appends as leader is history of the current id -/
 def Step.Ok {β : Type} (h : Hist β) (F : Store β) : Step β → Prop
-  | .sess r => (∀ n, (r.1 n).l4.Faithful h) ∧ (r.1 0).l2.cur ≠ "?"
+  | .sess r => (∀ n, (r.1 n).l4.Faithful h) ∧ (r.1 0).l2b.cur ≠ "?"
   | .restart => True
   | .ownAppend p => ∀ d, F.curData = some d → p = hseg h F.cur d.right p.length
 
@@ -171,7 +171,7 @@ theorem faithful_bytes {β : Type} (h : Hist β) (id : Id) (d : Data β) (hd : d
     sentinel outcome `discont`, which stands for overlapping / disjoint segments on disk
     and for the memory backend's refusal, is unreachable. -/
 theorem follower_contiguous {β : Type} (bk : Backend) (V : Nat → View β) (F : Store β)
-    (ch : List Nat) (cut lost fuel : Nat) (hq : (V 0).l2.cur ≠ "?") (hwf : WF bk F) :
+    (ch : List Nat) (cut lost fuel : Nat) (hq : (V 0).l2b.cur ≠ "?") (hwf : WF bk F) :
     (sessionV bk V F ch cut lost fuel).cls ≠ .discont :=
   session_nodiscont bk V F ch cut lost fuel hq hwf
 
@@ -240,8 +240,8 @@ theorem unjoinable_discards {β : Type} (bk : Backend) (F : Store β) (x y : Id)
     is, unchanged, a directory it had before: a session never creates, fills or relabels a
     directory of another id. -/
 theorem others_untouched {β : Type} (bk : Backend) (V : Nat → View β) (F : Store β)
-    (ch : List Nat) (cut lost fuel : Nat) (hq : (V 0).l2.cur ≠ "?") (hwf : WF bk F) :
-    ∀ p ∈ (sessionV bk V F ch cut lost fuel).store.dirs, p.1 = (V 0).l2.cur ∨ p ∈ F.dirs :=
+    (ch : List Nat) (cut lost fuel : Nat) (hq : (V 0).l2b.cur ≠ "?") (hwf : WF bk F) :
+    ∀ p ∈ (sessionV bk V F ch cut lost fuel).store.dirs, p.1 = (V 0).l2b.cur ∨ p ∈ F.dirs :=
   session_ksub bk V F ch cut lost fuel hq hwf
 
 /-- **unjoinable_discards**, session level: the leader serves `x`, the follower's current
@@ -377,20 +377,21 @@ theorem clear_deletes {β : Type} (bk : Backend) (L : Leader β) (F : Store β)
     attempt: `HANDOVER` is not offered in this situation (the ahead test comes after the
     self inspection), nothing is left under `x`, no snapshot is invented. -/
 theorem clear_deletes_any {β : Type} (bk : Backend) (V : Nat → View β) (F : Store β)
-    (ch : List Nat) (c lost f : Nat) (x : Id) (h0 : Serves (V 0).l1 x) (h02 : (V 0).l2.cur = x)
+    (ch : List Nat) (c lost f : Nat) (x : Id) (h0 : Serves (V 0).l1 x) (h01 : (V 0).l1b.cur = x)
+    (h02 : (V 0).l2b.cur = x)
     (hx1 : x ≠ "") (hx2 : x ≠ "?") (h1g : (V 1).l1.serving = true) (h1s : (V 1).l1.started = true)
-    (i0 : Id) (tl : List Id) (h1i : (V 1).l1.inputIds = i0 :: tl) (h1c : i0 ≠ (V 1).l1.cur)
+    (i0 : Id) (tl : List Id) (h1i : (V 1).l1.inputIds = i0 :: tl) (h1c : i0 ≠ (V 1).l1b.cur)
     (hwf : WF bk F) :
     (sessionV bk V F ch (c + 2) lost (f + 1)).cls = .clear ∧
       (sessionV bk V F ch (c + 2) lost (f + 1)).store.cur = "" ∧
       ∀ e', (x, some e') ∉ (sessionV bk V F ch (c + 2) lost (f + 1)).store.dirs := by
   obtain ⟨tl0, hi0⟩ := h0.ids
-  have hh : (V 0).handle "" 0 ch = ⟨[⟨.info, x, false, latest (V 0).l2.data, 0, []⟩], .eof, ch⟩ := by
-    simp [View.handle, h0.gate, h0.started, hi0, h0.cur, h02]
-  have hp := preSync_ok bk F x (latest (V 0).l2.data) hx1 hx2 hwf
+  have hh : (V 0).handle "" 0 ch = ⟨[⟨.info, x, false, latest (V 0).l2b.data, 0, []⟩], .eof, ch⟩ := by
+    simp [View.handle, h0.gate, h0.started, hi0, h01, h02]
+  have hp := preSync_ok bk F x (latest (V 0).l2b.data) hx1 hx2 hwf
   unfold sessionV
   simp only [hh, respErr, hx1, if_false]
-  generalize preSync bk F x (latest (V 0).l2.data) = P at hp
+  generalize preSync bk F x (latest (V 0).l2b.data) = P at hp
   obtain ⟨G, fsp⟩ := P
   obtain ⟨hG, hfx, _⟩ := hp
   simp only at hG hfx
@@ -651,7 +652,7 @@ example : (session .disk { lGrow with data := some ⟨10, [10, 11, 12, 13, 14], 
 example : (session .mem lEx fPrefix [1, 2] 4 2 3).store.dirs = [("idA", some ⟨9, [9, 10, 11, 12], none⟩)] := by decide
 -- the leader's input resynchronises under idB between StartPoint and NewReader of the second
 -- request: the (repaired) leader answers ERROR, nothing of idB reaches the follower
-example : (sessionV .disk (fun n => if n = 1 then ⟨lEx, lEx, { lEx with cur := "idB", inputIds := ["idB"], data := some ⟨20, [], some [520]⟩ },
+example : (sessionV .disk (fun n => if n = 1 then ⟨lEx, lEx, lEx, lEx, { lEx with cur := "idB", inputIds := ["idB"], data := some ⟨20, [], some [520]⟩ },
       { lEx with cur := "idB", inputIds := ["idB"], data := some ⟨20, [], some [520]⟩ }⟩ else View.const lEx) ⟨"", []⟩ [] 10 0 3).cls = .error := by decide
 -- the leader is stopped after one chunk of the stream: clean end of stream, or FAULT — a prefix either way
 example : (session .disk { lEx with halt := some (1, false) } fPrefix [1, 1, 1] 10 0 3).store.dirs
@@ -679,6 +680,18 @@ example : (sessionV .disk (fun n => if n = 0 then View.const lEx else View.const
 example : syncReact ((View.const lEx).handle "idA" 99 []).fin = .stopSyncer := by decide
 example : syncReact ((View.const { lEx with inputIds := [] }).handle "idA" 12 []).fin = .stopAll := by decide
 example : syncReact ((View.const lEx).handle "idA" 12 []).fin = .nothing := by decide
+-- the input switches the channel to idB between Handle's read of the input ids and StartPoint(nil):
+-- the request negotiated idA, the reader would be idB's — ERROR, the follower's copy of idA stays as it is
+example : (sessionV .disk (fun n => if n = 1 then
+        ⟨lEx, lEx, lEx, { lEx with cur := "idB", inputIds := ["idB"], data := some ⟨10, [510, 511, 512, 513, 514, 515, 516], none⟩ },
+          { lEx with cur := "idB", inputIds := ["idB"], data := some ⟨10, [510, 511, 512, 513, 514, 515, 516], none⟩ },
+          { lEx with cur := "idB", inputIds := ["idB"], data := some ⟨10, [510, 511, 512, 513, 514, 515, 516], none⟩ }⟩
+        else View.const lEx) fPrefix [] 10 0 3).cls = .error ∧
+    (sessionV .disk (fun n => if n = 1 then
+        ⟨lEx, lEx, lEx, { lEx with cur := "idB", inputIds := ["idB"], data := some ⟨10, [510, 511, 512, 513, 514, 515, 516], none⟩ },
+          { lEx with cur := "idB", inputIds := ["idB"], data := some ⟨10, [510, 511, 512, 513, 514, 515, 516], none⟩ },
+          { lEx with cur := "idB", inputIds := ["idB"], data := some ⟨10, [510, 511, 512, 513, 514, 515, 516], none⟩ }⟩
+        else View.const lEx) fPrefix [] 10 0 3).store.dirs = fPrefix.dirs := by decide
 -- ahead: HANDOVER, cache untouched
 example : (session .disk lEx fAhead [] 10 0 3).cls = .takeover ∧ (session .disk lEx fAhead [] 10 0 3).store.dirs = fAhead.dirs := by decide
 -- the unrepaired relabelling would not be faithful: B's bytes are not A's
